@@ -2195,6 +2195,9 @@ impl AssociatedFile for AnnotationStore {
             self.set_dataformat(DataFormat::CBOR).unwrap_or_default(); //ignores errors!
         }
 
+        //set_dataformat() derives a canonical filename for the new format, but here the filename was given explicitly: that is the file to write
+        self.filename = Some(filename.into());
+
         self
     }
 
